@@ -11,7 +11,7 @@ CHECK = {'title': 'The fan receives the nearest value it supports',
          '-50..305 through the real ExtractKeysWithDistinctValues+FindClosest; plus every such map over a 6-key universe and '
          'identity/README/quantiser full-size maps through the real controller updateDistinctPwmValues+setPwm on a recording fan. '
          'distinct_nontrivial = (map,request) pairs where the request is not itself a supported input and the map has more than one supported input '
-         '(pairs are enumerated without repetition). Third run: the real RunInitializationSequence with 7 configured PWM maps on hwmon and file fans (fan model 10 RPM per PWM unit): the stored RPM curve holds 10*map[k] under every supported input k and nothing else; then requests -50..305 through the same controller.',
+         '(pairs are enumerated without repetition). Third run: the real RunInitializationSequence with 7 configured PWM maps on hwmon and file fans (fan model 10 RPM per PWM unit): the stored RPM curve holds 10*map[k] under every supported input k and nothing else; then requests -50..305 through the same controller. The controller composition is also run on a never-stop fan with minimum 50 (setPwm serves every request, limits are the business of the control cycle).',
  'assumptions': ["reference definition of 'supported input' = first key of each run of equal outputs in key order"],
  'level_text': 'complete enumeration of a finite input space (all maps over a small key universe x all requests) on the real functions, compared '
                'with an independent reference; full-size maps only for three representative maps',
